@@ -88,7 +88,7 @@ Qed.
 
 Lemma step_com_le : forall i o s, Inv s -> rows_le (com (sdb s)) (com (sdb (fst (stepT i o s)))).
 Proof.
-  intros i o s HI. destruct o as [k|k p|k| | |]; cbn [step].
+  intros i o s HI. destruct o as [k|k c p|k| | |]; cbn [step].
   - pose proof (load_inv i k s HI) as [_ [E _]]. destruct (load i k s) as [s1 r]. cbn [fst] in *. rewrite E. apply rows_le_refl.
   - pose proof (load_inv i k s HI) as [_ [E _]]. destruct (load i k s) as [s1 [e|]]; cbn [fst sdb] in *; rewrite E; apply rows_le_refl.
   - pose proof (load_inv i k s HI) as [_ [E _]]. destruct (load i k s) as [s1 [e|]]; cbn [fst sdb] in *; rewrite E; apply rows_le_refl.
@@ -202,7 +202,7 @@ Proof.
   { pose proof (flush_flush_out server sane_multi g i s S1) as HF. destruct (flushT i s) as [s1 r]. cbn [fst snd] in *.
     destruct HF; try (apply (proj1 (proj2 (proj2 (proj2 (proj2 (rolled_back_facts s i)))) j N)));
       unfold flush_noop, flush_done; cbn [sss]; apply sget_sput_other, N. }
-  destruct o as [k|k p|k| | |]; cbn [step].
+  destruct o as [k|k c p|k| | |]; cbn [step].
   - unfold load. destruct (lookup k _); [reflexivity|]. destruct (view _ _ _) as [vw sn]. destruct (lookup k vw); cbn [fst sss]; apply sget_sput_other, N.
   - unfold load. destruct (lookup k (sents (sget i (sss s)))) eqn:L; cbn [fst sss].
     + apply sget_sput_other, N.
